@@ -29,6 +29,60 @@ Definition In_ (last : Z) (ids : list Z) : obs := Obs (VIncompatible last ids).
 Definition K (te ty : Z) (off req : eqos) (pp sp : list name) (w r : obs) : C15_case :=
   mkC15 (mkconfig (b_of te) (b_of ty) off req pp sp) w r.
 
+(* ---- compact form of the exhaustive kind enumeration (thorough tier): one number per case,
+   z = n + 2^20 * (wcode + 2^48 * rcode).  n in [0, 589824) is the mixed-radix index of the
+   kind combination, digits (most significant first)
+     d1:4 d2:4 s1 c1 o1 s2 c2 o2 :2 k1:3 k2:3 r1 r2 x1 x2 w1 w2 :2
+   (durability, scope, coherent, ordered, liveliness kind, reliability, destination order,
+   ownership; 1 = writer side, 2 = reader side), and the duration fields rotate through five
+   boundary durations with i = n + 1 -- exactly as `kind_case(n)` of props/C15.py. *)
+Definition dur5 (k : Z) : duration_kind :=
+  if k =? 0 then F 0 0 else if k =? 1 then F 0 1 else if k =? 2 then F 1 0
+  else if k =? 3 then F 2147483647 999999999 else Inf.
+Definition enum_cfg (n : Z) : config :=
+  let i := n + 1 in
+  let a := dur5 (i mod 5) in let b := dur5 ((i / 5) mod 5) in
+  let c := dur5 ((i / 25) mod 5) in let d := dur5 ((i / 125) mod 5) in
+  let w2 := n mod 2 in let n1 := n / 2 in
+  let w1 := n1 mod 2 in let n2 := n1 / 2 in
+  let x2 := n2 mod 2 in let n3 := n2 / 2 in
+  let x1 := n3 mod 2 in let n4 := n3 / 2 in
+  let r2 := n4 mod 2 in let n5 := n4 / 2 in
+  let r1 := n5 mod 2 in let n6 := n5 / 2 in
+  let k2 := n6 mod 3 in let n7 := n6 / 3 in
+  let k1 := n7 mod 3 in let n8 := n7 / 3 in
+  let o2 := n8 mod 2 in let n9 := n8 / 2 in
+  let c2 := n9 mod 2 in let n10 := n9 / 2 in
+  let s2 := n10 mod 2 in let n11 := n10 / 2 in
+  let o1 := n11 mod 2 in let n12 := n11 / 2 in
+  let c1 := n12 mod 2 in let n13 := n12 / 2 in
+  let s1 := n13 mod 2 in let n14 := n13 / 2 in
+  let d2 := n14 mod 4 in let d1 := (n14 / 4) mod 4 in
+  mkconfig true true
+    (Q d1 s1 c1 o1 a b k1 c r1 x1 w1 [])
+    (Q d2 s2 c2 o2 b a k2 d r2 x2 w2 [])
+    [] [].
+
+(* one observation as a number: tag + 8 * (last_index + 16 * seq); tag 0 = matched,
+   1 = nothing, 2 = inconsistent topic, 3 = other, 4 = incompatible; a policy id is written
+   as its 1-based position in rxo_policy_ids, `seq` lists the ids in status order, first id
+   in the lowest hexadecimal digit, terminated by 0 *)
+Definition id_of_index (k : Z) : Z := nth (Z.to_nat (k - 1)) rxo_policy_ids 0.
+Fixpoint ids_of_seq (fuel : nat) (z : Z) : list Z :=
+  match fuel with
+  | O => []
+  | S f => if z mod 16 =? 0 then [] else id_of_index (z mod 16) :: ids_of_seq f (z / 16)
+  end.
+Definition obs_of_code (z : Z) : obs :=
+  let tag := z mod 8 in
+  if tag =? 0 then M else if tag =? 1 then N0 else if tag =? 2 then T
+  else if tag =? 4 then In_ (id_of_index ((z / 8) mod 16)) (ids_of_seq 12 (z / 128))
+  else ObsOther.
+Definition EZ (z : Z) : C15_case :=
+  mkC15 (enum_cfg (z mod 1048576))
+        (obs_of_code ((z / 1048576) mod 281474976710656))
+        (obs_of_code (z / 295147905179352825856)).
+
 Fixpoint zlist_eqb (a b : list Z) : bool :=
   match a, b with
   | [], [] => true
